@@ -10,6 +10,7 @@ package query
 
 import (
 	"fmt"
+	"math"
 	"reflect"
 	"regexp"
 	"strconv"
@@ -461,6 +462,11 @@ func matchValue(value string, op Operator, operand reflect.Value) (bool, error) 
 			v1, err := strconv.ParseFloat(filteredValue, 64)
 			if err != nil {
 				return false, fmt.Errorf("failed to convert value %v from event attribute to float64: %w", filteredValue, err)
+			}
+
+			// float64(math.MaxInt64) is 2^63: from there on the conversion overflows
+			if v1 >= float64(math.MaxInt64) {
+				return false, fmt.Errorf("value %v from event attribute does not fit int64", filteredValue)
 			}
 
 			v = int64(v1)
